@@ -1,5 +1,6 @@
 import DmrVerif.Driver.Loop
+import DmrVerif.Driver.Lrrp
 
-/-! model driver for property C15 (stub: no operations registered yet) -/
+/-! model driver for property C15 -/
 
-def main : IO Unit := Dmr.Driver.runMain []
+def main : IO Unit := Dmr.Driver.runMain [Dmr.Driver.lrrpOp, Dmr.Driver.mbxmlOp]
